@@ -335,10 +335,17 @@ def check_single_outcome(pid, r, skip=()):
             continue
         if st["established"]:
             out.append(C.v("single-outcome", "%s/still-established/%s" % (pid, role), "%s: is_established still true at the end: %s" % (lab, st)))
+        # Signatures are per *pair* of distinct reporting sites (event kind @ function that reported it), so that
+        # a triple report is the union of its pairs and the space of signatures stays small and narrow.
+        pairs_ = sorted(set((a, b) for i, a in enumerate(tevo) for b in tevo[i + 1:]))
         if len(flags) > 1:
-            out.append(C.v("single-outcome", "%s/two-outcome-flags/%s/%s/%s" % (pid, role, "+".join(flags), "+".join(tevo)), "%s reports %s (events %s)" % (lab, flags, tevo)))
+            want = set(f.upper() for f in flags)
+            fp = [(a, b) for a, b in pairs_ if {a.split("@")[0], b.split("@")[0]} == want] or [("+".join(tevo),)]
+            for pr in fp:
+                out.append(C.v("single-outcome", "%s/two-outcome-flags/%s/%s/%s" % (pid, role, "+".join(flags), "+".join(pr)), "%s reports %s (events %s)" % (lab, flags, tevo)))
         if len(tev) > 1:
-            out.append(C.v("single-outcome", "%s/terminal-event-count/%s/%s" % (pid, role, "+".join(tevo)), "%s fired terminal events %s" % (lab, [(h["evt"], h.get("origin"), h["seq"]) for h in tevh])))
+            for pr in pairs_:
+                out.append(C.v("single-outcome", "%s/terminal-event-count/%s/%s" % (pid, role, "+".join(pr)), "%s fired terminal events %s" % (lab, [(h["evt"], h.get("origin"), h["seq"]) for h in tevh])))
         saw_rq = lab.startswith("req") or any(h["pdu"] == "A_ASSOCIATE_RQ" for h in r.evts(lab, "EVT_PDU_RECV"))
         if saw_rq and len(flags) == 0 and _negotiated(r, lab):
             out.append(C.v("single-outcome", "%s/no-outcome/%s" % (pid, role), "%s ended with no outcome flag: %s, events %s" % (lab, st, tev)))
@@ -449,6 +456,34 @@ def check_provider_idle(pid, r):
             continue
         if tr[-1]["next"] != "Sta1" or st["fsm"] != "Sta1":
             out.append(C.v("back-to-idle", "%s/not-idle/%s/%s" % (pid, lab[:3], st["fsm"]), "%s provider ended in %s (last transition %s+%s->%s)" % (lab, st["fsm"], tr[-1]["state"], tr[-1]["fsm_event"], tr[-1]["next"])))
+    return out
+
+
+def check_back_to_idle(pid, r, dead=()):
+    """Every provider that processed an event ends in Sta1 with its threads finished and its transport
+    connection closed.  The cause suffix separates the two situations in which pynetdicom's ACSE layer stops the
+    provider thread outright (known findings) from everything else."""
+    out = []
+    for lab, st in sorted(r.final.items()):
+        if "error" in st or lab in dead:
+            continue
+        tr = r.evts(lab, "EVT_FSM_TRANSITION")
+        if not tr:
+            continue
+        cause = "other"
+        if tr[-1]["next"] != "Sta1" or st["fsm"] != "Sta1":
+            if lab.startswith("acc") and not r.evts(lab, "EVT_REQUESTED") and not st.get("dul_alive"):
+                # the association thread gave up waiting for the A-ASSOCIATE-RQ (ACSE timeout) and stopped the provider
+                cause = "request-not-received-within-acse-timeout"
+            if lab.startswith("req") and any(h.get("origin") == "_negotiate_as_requestor" for h in r.evts(lab, "EVT_ABORTED")):
+                # the provider reported an abort while the requestor was negotiating; ACSE stops the DUL thread at once
+                cause = "aborted-during-negotiation"
+            out.append(C.v("back-to-idle", "%s/not-idle/%s/%s/%s" % (pid, lab[:3], st["fsm"], cause),
+                           "%s provider ended in %s (last transition %s+%s->%s)" % (lab, st["fsm"], tr[-1]["state"], tr[-1]["fsm_event"], tr[-1]["next"])))
+        if st.get("dul_alive") or st.get("alive"):
+            out.append(C.v("back-to-idle", "%s/thread-left/%s" % (pid, lab[:3]), "%s: threads still running at the end: %s" % (lab, st)))
+        if r.evts(lab, "EVT_CONN_OPEN") and not st.get("sock_closed"):
+            out.append(C.v("back-to-idle", "%s/socket-open/%s/%s/%s" % (pid, lab[:3], st["fsm"], cause), "%s: transport connection not closed at the end: %s" % (lab, st)))
     return out
 
 
